@@ -119,7 +119,9 @@ class Pools:
         return out
 
     def close(self):
-        for p in self.pools.values():
+        # a template process inherits the pipe ends of the pools forked before
+        # it: the last pool must go first or the earlier ones never see EOF
+        for p in reversed(list(self.pools.values())):
             p.close()
         self.pools = {}
 
